@@ -88,9 +88,9 @@ func momentStat(k int) uniStat {
 			var prop float64
 			for i := range m.x {
 				a := math.Abs(m.df[i])
-				prop += m.w[i] * (math.Pow(a+m.delta, float64(k)) - math.Pow(a, float64(k)))
+				prop += (m.w[i] / m.Wf) * (math.Pow(a+m.delta, float64(k)) - math.Pow(a, float64(k)))
 			}
-			unit := m.nn()*u*float64(k+2)*m.absCentral(k)/m.Wf + prop/m.Wf
+			unit := m.nn()*u*float64(k+2)*m.absCentral(k)/m.Wf + prop
 			if k == 0 {
 				unit = 4 * u
 			}
@@ -451,6 +451,16 @@ func (m *mon) runUni() {
 				if !ok {
 					c.Count("noverdict.ill-defined:"+S.name, 1)
 					continue
+				}
+				// gradual underflow: gonum forms plain sums of w*(deviation)^k; a
+				// term below 2^-1022 (tiny weights times the u*|x|-sized deviations
+				// of a (near-)constant sample) is rounded with ABSOLUTE error
+				// 2^-1075, which the division by a tiny total weight magnifies.
+				// This floor is part of every unit, hence of the definition band
+				// and of all relations (which use sums of units).
+				uflow := mo.nn() * 1e-322 * math.Max(1, 1/mo.Wf)
+				for k := range units {
+					units[k] += uflow
 				}
 				var out []float64
 				xc, wc := cp(x), cp(w)
